@@ -188,6 +188,7 @@ func checkC02(c *Ctx, r *Result, tier string) {
 		c02Wait(c, r, fn, procIface)
 	}
 	r.Floor("R02a-wait", n, 1)
+	c02ObserverScope(c, r)
 
 	// ---- R02b Task.Run / HandleError -----------------------------------------------------------
 	taskIface := c.Interface("engine/pool", "Task")
@@ -316,7 +317,9 @@ func checkC02(c *Ctx, r *Result, tier string) {
 
 	// ---- R02d lock order -------------------------------------------------------------------------------
 	checkLockOrder(c, r, lfs, "R02d-lock-order", engineLockClass)
-	r.Extra["reentrance_call_sites"] = checkReentrance(c, r, lfs, "R02d-reentry", func(class string) bool { return strings.HasPrefix(class, "engine.") || strings.HasPrefix(class, "pubsub.") })
+	r.Extra["reentrance_call_sites"] = checkReentrance(c, r, lfs, "R02d-reentry", func(class string) bool {
+		return strings.HasPrefix(class, "engine.") || strings.HasPrefix(class, "pubsub.")
+	})
 }
 
 // c02Wait: observer registered before the event is added; Wait passed whenever a monitor is returned.
@@ -675,4 +678,73 @@ func c02Attribution(c *Ctx, r *Result) {
 		}
 	}
 	r.Floor("R02e", n, 3)
+}
+
+// ---- R02a-scope: an observer is removed for its own cascade only --------------------------------
+
+// EventPump.RemoveObservers(kind, nil) removes the observers of every source. Inside the engine a
+// removal must therefore name a source that is non-nil on every path: a boxed pointer, the source
+// handed to the callback, or an interface value known non-nil on the path (errpath).
+func c02ObserverScope(c *Ctx, r *Result) {
+	n := 0
+	for _, fn := range c.ModFuncs() {
+		if c.PkgOf(fn) != "engine" {
+			continue
+		}
+		sites := callSites(fn, func(name string, _ ssa.CallInstruction) bool {
+			return strings.HasSuffix(name, "pubsub.EventPump.RemoveObservers")
+		})
+		if len(sites) == 0 {
+			continue
+		}
+		key := c.FuncKey(fn)
+		isSite := map[ssa.Instruction]int{}
+		for i, s := range sites {
+			isSite[s] = i
+		}
+		bad := map[int]string{}
+		seenSite := map[int]bool{}
+		o := &PathOracle{NonNilParams: true}
+		o.Visit = func(st *PState, in ssa.Instruction) {
+			i, ok := isSite[in]
+			if !ok {
+				return
+			}
+			seenSite[i] = true
+			args := in.(ssa.CallInstruction).Common().Args
+			src := args[len(args)-1]
+			v := st.canon(src)
+			switch x := v.(type) {
+			case *ssa.MakeInterface:
+				return // a boxed value is a non-nil interface: names one source
+			case *ssa.Parameter:
+				if x.Parent().Parent() != nil {
+					return // the source the pump hands to the callback
+				}
+			}
+			if st.Get(v, o) == AvNonNil {
+				return
+			}
+			if _, dup := bad[i]; !dup {
+				bad[i] = accessPath(src)
+			}
+		}
+		if !ExplorePaths(fn, o) {
+			r.Undecide("R02a-scope: path exploration of %s exceeded its state bound", key)
+			continue
+		}
+		for i, s := range sites {
+			n++
+			site := fmt.Sprintf("%s#RemoveObservers#%d", key, i)
+			pos := c.Pos(c.InstrPos(s))
+			if why, isBad := bad[i]; isBad {
+				r.Instance("R02a-scope", site, pos, "finding", "source may be nil: "+why, true)
+				r.Report(Finding{Rule: "R02a-scope", Site: site, Pos: pos,
+					Msg: fmt.Sprintf("%s removes observers with a source (%s) that can be a nil interface on some path: RemoveObservers(kind, nil) drops the observers of every cascade in flight — their AddEventAndWait never returns and their finish handlers never run", key, why)})
+			} else {
+				r.Instance("R02a-scope", site, pos, "ok", "the source named in the removal is non-nil on every path (one cascade's observer)", true)
+			}
+		}
+	}
+	r.Floor("R02a-scope", n, 2)
 }
